@@ -1,5 +1,5 @@
 CONFIG = {
-    "gens": [],
+    "gens": ["Lock"],
     "level": "proof",
     "evidence_keys": ["traces"],
     "passes": [
